@@ -285,6 +285,9 @@ func exec(e *lp.Exec) {
 				e.Oracle("c08-panic", "Parse recovered from a panic")
 				lg.Panics = 0
 			}
+			for _, v := range a.R.Framing {
+				e.Oracle("c08-framing-rejected", "%s", v)
+			}
 			e.P("> %s badurl=%s badproto=%s", line, strings.Join(a.R.BadURL, ","), strings.Join(a.R.BadProto, ","))
 			// 2. nbio again, one byte at a time: the offset at which each message completes
 			b := hx.NewSess(client, maxBody, limit)
